@@ -662,13 +662,24 @@ static void check_c11(const TypeOps& t) {
       if (o.kind == 'R') R.counters["reads_into_used_state"] += h.empty() ? 0 : 1;
       if (!ok) continue;
       std::string c = canon(obj);
-      // replay determinism: the same history on a second fresh object must give the same canonical state
+      // replay determinism: the same history on a second fresh object must give the same canonical state; and once that
+      // object is gone every block it or the reads obtained from operator new has been returned ("nothing is leaked")
       {
-        Obj again(t);
-        for (auto& p : h) apply(again, p, "", false);
-        apply(again, o, hs, false);
-        if (canon(again) != c && report)
+        const long blocks_before = live_blocks();
+        bool differs;
+        {
+          Obj again(t);
+          for (auto& p : h) apply(again, p, "", false);
+          apply(again, o, hs, false);
+          differs = canon(again) != c;
+        }
+        const long blocks_after = live_blocks();
+        if (differs && report)
           R.viol("C11|nondeterministic-state|" + shape(t.sch), idf(), "same history produced two different states (uninitialised data?)",
+                 "{\"type\":" + jstr(t.name) + ",\"history\":" + jstr(hs + opname(o)) + "}");
+        if (blocks_after != blocks_before && report)
+          R.viol("C11|leak|" + shape(t.sch) + tags(t.sch), idf(),
+                 std::to_string(blocks_after - blocks_before) + " heap block(s) still allocated after the destination object was destroyed",
                  "{\"type\":" + jstr(t.name) + ",\"history\":" + jstr(hs + opname(o)) + "}");
       }
       if (!seen.count(c)) {
@@ -695,10 +706,16 @@ static void check_c11(const TypeOps& t) {
           auto idf = CASE_ID("C11|" + t.name + "|seq|" + hs + opname(rd));
           const bool report = selected(idf);
           if (out_of_time()) { R.add("incomplete"); return; }
-          Obj obj(t);
-          apply(obj, o1, "", false);
-          if (second) apply(obj, ops[second - 1], "", false);
-          apply(obj, rd, "seq|" + hs, report);
+          const long blocks_before = live_blocks();
+          {
+            Obj obj(t);
+            apply(obj, o1, "", false);
+            if (second) apply(obj, ops[second - 1], "", false);
+            apply(obj, rd, "seq|" + hs, report);
+          }
+          if (live_blocks() != blocks_before && report)
+            R.viol("C11|leak|" + shape(t.sch) + tags(t.sch), idf(), std::to_string(live_blocks() - blocks_before) + " heap block(s) still allocated after the destination object was destroyed",
+                   "{\"type\":" + jstr(t.name) + ",\"history\":" + jstr("seq|" + hs + opname(rd)) + "}");
           n++;
         }
         if (o1.kind == 'R' && !A.thorough()) break;
